@@ -68,6 +68,14 @@ def check_then_act_atomicity(ctx):
         ctx.analysed(fi)
         kinds = {k for k, _ in acc[name]}
         others = mutators - {name}
+        if 'test-in' in kinds and 'insert' in kinds:
+            for tnode in [n for k, n in acc[name] if k == 'test-in']:
+                owner = next((a for a in ancestors(tnode) if isinstance(a, (ast.If, ast.While, ast.IfExp))), None)
+                pure = owner is not None and (owner.test is tnode or (isinstance(owner.test, ast.UnaryOp) and owner.test.operand is tnode))
+                ctx.check(pure, f'{fi.qualname}:collision guard covers every key', tnode, f'`{src(owner.test) if owner is not None else src(tnode)}`',
+                          f'the guard `{src(owner.test) if owner is not None else src(tnode)}` is more than the membership test: for the keys it lets through '
+                          '(e.g. the shared key None of unknown actions) a second request overwrites the pending entry - the first caller never '
+                          'gets its reply, the second gets the wrong one', fi)
         if 'test-in' in kinds and 'insert' in kinds and others:
             tests = [n for k, n in acc[name] if k == 'test-in']
             ins = [n for k, n in acc[name] if k == 'insert']
@@ -249,3 +257,25 @@ def error_matching(ctx):
     ok = any(isinstance(n, ast.Call) and call_attr(n) == 'get' and src(n.func.value) == 'REQUEST2REPLY' for n in body_walk(tx.node))
     ctx.check(ok, f'{tx.qualname}:pending key from REQUEST2REPLY', tx.node, 'key = (REQUEST2REPLY.get(action), ident)',
               'pending requests are not keyed by the expected reply action', tx)
+
+
+@rule('C11.R6', min_instances=1)
+def cleanup_removes_by_identity(ctx):
+    """time-out cleanup in the receive thread removes an entry from active_requests only when it IS the timed-out entry
+    (the same key may meanwhile belong to a newer request)"""
+    m = ctx.m
+    rx = next((f for n, f in _thread_entries(m).items() if 'rx' in n), None)
+    if rx is None:
+        raise AnchorMissing('receive thread not found')
+    ctx.analysed(rx)
+    loops = [n for n in body_walk(rx.node) if isinstance(n, ast.While) and 'cleanup' in src(n.test)]
+    if not loops:
+        ctx.undecided(f'{rx.qualname}:cleanup by identity', rx.node, 'no cleanup loop found', rx)
+        return
+    for l in loops:
+        for c in [c for c in calls_in(l) if call_attr(c) in ('pop', 'popitem') and 'active_requests' in src(c.func)] + \
+                 [d for d in walk_local(l) if isinstance(d, ast.Delete) and 'active_requests' in src(d)]:
+            ok = any(isinstance(a, ast.If) and isinstance(a.test, ast.Compare) and all(isinstance(o, ast.Is) for o in a.test.ops) for a in ancestors(c))
+            ctx.check(ok, f'{rx.qualname}:cleanup by identity', c, 'removal guarded by `prev is entry`',
+                      f'`{src(c)}` removes the entry found under the key of the timed-out request without checking that it is that request: a newer '
+                      'request with the same action and specifier is dropped and its caller waits for the time-out although the peer answered', rx)
